@@ -6,6 +6,7 @@ import GfsModel.OpsDisk
 import GfsModel.OpsHuge
 import GfsModel.OpsHandles
 import GfsModel.OpsCli
+import GfsModel.OpsX
 
 namespace Gfs.Ops
 open Gfs.Proto
@@ -37,6 +38,9 @@ def dispatch (f : List String) : Obs × Option Obs :=
                 | none =>
                   match dispatchCli f with
                   | some r => r
-                  | none => ([("bad-op", "1")], none)
+                  | none =>
+                    match dispatchX f with
+                    | some r => r
+                    | none => ([("bad-op", "1")], none)
 
 end Gfs.Ops
